@@ -44,3 +44,31 @@ func ReadGroup(filename string) []bool {
 	}
 	return out
 }
+
+// B2bitArr_alt1: the same bits written directly into a result of exactly 8 len(src) elements: element 8i+k is bit k
+// (counted from the most significant) of byte i — what appending the eight-bit expansions in order produces.
+func B2bitArr_alt1(src []byte) []bool {
+	out := make([]bool, len(src)*8)
+	for i := 0; i < len(src); i++ {
+		b := src[i]
+		out[i*8+0] = b&0x80 > 0
+		out[i*8+1] = b&0x40 > 0
+		out[i*8+2] = b&0x20 > 0
+		out[i*8+3] = b&0x10 > 0
+		out[i*8+4] = b&0x08 > 0
+		out[i*8+5] = b&0x04 > 0
+		out[i*8+6] = b&0x02 > 0
+		out[i*8+7] = b&0x01 > 0
+	}
+	return out
+}
+
+// ReadGroup_alt1: the file's bytes expanded by B2bitArr (the same bits; the spare capacity of the primary
+// formulation's result is not part of its value).
+func ReadGroup_alt1(filename string) []bool {
+	buf, err := ioutil.ReadFile(filename)
+	if err != nil {
+		panic(err)
+	}
+	return B2bitArr(buf)
+}
